@@ -343,7 +343,7 @@ func (e *Exec) appendOp(st *State, a0, a1 Val, c *ssa.CallCommon, where string) 
 	}
 	if dst.Obj != 0 && n+len(add) <= dst.Cap {
 		for i, v := range add {
-			e.store(st, &Ptr{Obj: dst.Obj, Path: appendStep(dst.Path, Step{Idx: e.slIdx(dst, e.S.Int(int64(n + i)))})}, v, where)
+			e.store(st, &Ptr{Obj: dst.Obj, Path: appendStep(dst.Path, Step{Idx: e.slIdx(dst, e.S.Int(int64(n+i)))})}, v, where)
 		}
 		return &SliceV{Obj: dst.Obj, Path: dst.Path, Off: dst.Off, Len: s.Int(int64(n + len(add))), Cap: dst.Cap, Elem: et}
 	}
